@@ -18,8 +18,23 @@ pub fn run(seed: u64, n: usize, out: &mut dyn Write) {
     while made < n {
         let mut cfg = GenCfg::default();
         cfg.kind = None;
+        // every other case: many connection ids (thousands of distinct id pairs in flight: any table shared between
+        // workers is under eviction pressure) and a compact connector
+        if made % 2 == 1 {
+            cfg.max_ids = 70;
+            cfg.kind = Some(1 + (made / 2 % 2) as u8);
+        }
         let mut drng = rng.fork();
-        let d = gen_dict(&mut drng, &cfg);
+        let mut d = gen_dict(&mut drng, &cfg);
+        if made % 2 == 1 {
+            // several hundred words over a small alphabet with ids spread over the whole connector
+            let abc = ['a', 'b', 'c', 'd', '1', '2'];
+            for i in 0..600usize {
+                let w: String = (0..1 + i % 3).map(|k| abc[(i / 6usize.pow(k as u32)) % 6]).collect();
+                d.lex.extend_from_slice(format!("{w},{},{},{},w{i}\n", drng.below(d.num_left), drng.below(d.num_right), drng.range(-40, 40)).as_bytes());
+                d.surfaces.push(w);
+            }
+        }
         let dict = match build_dict(&d) {
             Some(Ok(x)) => x,
             _ => continue,
@@ -32,7 +47,7 @@ pub fn run(seed: u64, n: usize, out: &mut dyn Write) {
         let streams: Vec<Vec<String>> = (0..16)
             .map(|_| {
                 let mut srng = rng.fork();
-                (0..20).map(|_| gen_sentence(&mut srng, &d, &cfg, 6)).collect()
+                (0..20).map(|_| gen_sentence(&mut srng, &d, &cfg, if d.surfaces.len() > 100 { 30 } else { 6 })).collect()
             })
             .collect();
         // sequential reference: a fresh worker per sentence
